@@ -425,6 +425,101 @@ example : noStartIn erb ['a', '{', '{', ' ', 'x', ' ', '}', '}', '{', '%', ' ', 
     findStartDefault ['a', '{', '{', ' ', 'x', ' ', '}', '}', '{', '%', ' ', 'y', ' ', '%', '}'] ≠ none := by
   decide
 
+/-! ## the Aho-Corasick automaton as an assumption with a name -/
+
+/-- What the proof uses about `aho_corasick::find_overlapping` is `AcSpec` (`Proofs/LexerAC.lean`): on
+    every haystack the automaton reports exactly the occurrences of the patterns (nothing missed,
+    nothing invented; multiplicity and the order among matches that end at the same offset are free)
+    in the order of their end offsets.  Over ANY such report the `max_pattern_len` loop of
+    `find_start_marker` returns the leftmost-longest match.  The `kac` stream evaluates the
+    hypothesis on what the real automaton reports (hook `start_marker_matches`) on every haystack
+    of length ≤ 5 (thorough 6) for every generated start delimiter family, decided by `acSpecB`. -/
+theorem ac_loop_of_spec (d : Delims) (pats : List (List Char)) (hv : validatedStartDelims d = some pats)
+    (pre rest : List Char) (ms : List AcMatch) (hspec : AcSpec pats rest ms) :
+    acLoop d (maxPatternLen pats) pre rest none ms = findLL d pre rest :=
+  acLoop_eq_findLL_of_spec hv pre rest ms hspec
+
+/-- `acSpecB` (what the driver runs on the real report) decides `AcSpec` -/
+theorem ac_spec_decided (pats : List (List Char)) (rest : List Char) (ms : List AcMatch) :
+    acSpecB pats rest ms = true ↔ AcSpec pats rest ms := acSpecB_iff pats rest ms
+
+/-- patterns `a`, `aa` on `aa`: the two matches that end at offset 2 may come in either order; a
+    missing, an invented or a late match is refused -/
+example :
+    AcSpec [['a'], ['a', 'a']] ['a', 'a'] [⟨0, 0, 1⟩, ⟨0, 1, 2⟩, ⟨1, 0, 1⟩] ∧
+    AcSpec [['a'], ['a', 'a']] ['a', 'a'] [⟨0, 0, 1⟩, ⟨1, 0, 1⟩, ⟨0, 1, 2⟩] ∧
+    ¬ AcSpec [['a'], ['a', 'a']] ['a', 'a'] [⟨0, 0, 1⟩, ⟨1, 0, 1⟩] ∧
+    ¬ AcSpec [['a'], ['a', 'a']] ['a', 'a'] [⟨0, 0, 1⟩, ⟨0, 1, 2⟩, ⟨1, 0, 1⟩, ⟨1, 1, 2⟩] ∧
+    ¬ AcSpec [['a'], ['a', 'a']] ['a', 'a'] [⟨0, 1, 2⟩, ⟨0, 0, 1⟩, ⟨1, 0, 1⟩] := by
+  refine ⟨(ac_spec_decided _ _ _).1 (by decide), (ac_spec_decided _ _ _).1 (by decide), ?_, ?_, ?_⟩ <;>
+    exact fun h => absurd ((ac_spec_decided _ _ _).2 h) (by decide)
+
+/-- the start marker search of the tokenizer with the automaton's report as a parameter
+    (`report pats rest` = what `find_overlapping` yields for the patterns `pats` on `rest`) -/
+def findStartWith (report : List (List Char) → List Char → List AcMatch) (d : Delims) : FindStart :=
+  if d = defaultDelims then fun _ rest => findStartDefault rest
+  else fun pre rest =>
+    match validatedStartDelims d with
+    | none => none
+    | some pats => acLoop d (maxPatternLen pats) pre rest none (report pats rest)
+
+/-- the model's own `findStart` is the instance with the reference report `acMatches` -/
+theorem findStartWith_acMatches (d : Delims) : findStartWith acMatches d = findStart d := by
+  unfold findStartWith findStart acFind; rfl
+
+/-- **Main theorem, with the gap to the code as named hypotheses.**  Let `realLex` be the tokenizer
+    of `lexer.rs` (its text output) and `report` the overlapping-match report of the real automaton.
+    * `hAc`  — the automaton meets `AcSpec` on every haystack [validated: `kac` stream, exhaustive on
+      short haystacks for every generated delimiter family, decided in Lean on the real report];
+    * `hLex` — the tokenizer is the model `lex` run with the search built on that report [validated:
+      `seg` / `rand` / `prog` / `line` / `entry` / `wrap` / `big` correspondence streams, token by
+      token, incl. sources outside the hypotheses of the theorem and lexer errors; literal tables
+      regenerated from the source: `table_*`].
+    Then the statement of the property holds for the tokenizer itself: for all 8 settings, every
+    marker placement and line-ending style, every well-formed delimiter set (`goodDelims`) and
+    every template whose texts contain no start delimiter and whose tags read back as written
+    (`delimFree`), the text output is exactly what the five whitespace rules give (`specRender`);
+    hence (corollaries `delim_invariance`, `lookalike_is_text`, `line_lex_as_tag`, `raw_rule`) it
+    does not depend on the delimiter set, default look-alikes are plain text under other
+    delimiters, and line statements / comments behave as the tags occupying their lines.
+    What stays between this theorem and a render of the real engine: the parser, code generator
+    and VM print `TemplateData` tokens unchanged (`EmitRaw`) — covered by the differential
+    streams through `Environment::render_str` and the other entry points only. -/
+theorem C10_main
+    (report : List (List Char) → List Char → List AcMatch)
+    (realLex : Cfg → Delims → List Char → Res)
+    (hAc : ∀ pats rest, AcSpec pats rest (report pats rest))
+    (hLex : ∀ cfg d src, realLex cfg d src = lex cfg d (findStartWith report d) src) :
+    ∀ (cfg : Cfg) (vm bm : List Char) (d : Delims) (tm : Tmpl),
+      goodDelims d = true → delimFree d tm = true →
+      renderRes vm bm (realLex cfg d (unparse d tm)) = some (specRender cfg vm bm tm) := by
+  intro cfg vm bm d tm hg hf
+  have hfind : findStartWith report d = findLL d := by
+    by_cases h : d = defaultDelims
+    · subst h
+      simp only [findStartWith, if_true]
+      exact (findStart_default).symm ▸ (by simp [findStart])
+    · obtain ⟨pats, hv⟩ : ∃ pats, validatedStartDelims d = some pats :=
+        ⟨_, validated_of_good (good_of_goodDelims hg)⟩
+      funext pre rest
+      simp only [findStartWith, h, if_false, hv]
+      exact acLoop_eq_findLL_of_spec hv pre rest _ (hAc pats rest)
+  rw [hLex, hfind]
+  exact lex_spec cfg vm bm (good_of_goodDelims hg) tm hf
+
+/-- the hypotheses of `C10_main` are satisfiable: the model itself with the reference report -/
+example : ∃ (report : List (List Char) → List Char → List AcMatch) (realLex : Cfg → Delims → List Char → Res),
+    (∀ pats rest, AcSpec pats rest (report pats rest)) ∧
+    (∀ cfg d src, realLex cfg d src = lex cfg d (findStartWith report d) src) :=
+  ⟨acMatches, fun cfg d src => lex cfg d (findStartWith acMatches d) src, acSpec_acMatches, fun _ _ _ => rfl⟩
+
+/-- `C10_main` instantiated with the model is `C10_full` -/
+theorem C10_main_gives_full : C10_full := by
+  intro cfg vm bm d tm hg hf
+  have := C10_main acMatches (fun cfg d src => lex cfg d (findStartWith acMatches d) src) acSpec_acMatches
+    (fun _ _ _ => rfl) cfg vm bm d tm hg hf
+  simpa [findStartWith_acMatches] using this
+
 /-! ## the search kernels -/
 
 /-- `memstr` (as the lexer uses it for the comment end and for the block start inside raw blocks):
